@@ -112,7 +112,7 @@ fn opts(tier: Tier) -> UniverseOpts {
         n_max: tier.pick(5, 6),
         prios: vec![0],
         prio_upto: 0,
-        full_rank_perms_upto: tier.pick(5, 5),
+        full_rank_perms_upto: tier.pick(5, 6),
         merge_ranks: vec![MergeRank::Low, MergeRank::High, MergeRank::Hash],
     }
 }
